@@ -100,7 +100,7 @@ func (fm *Frame) InputFile() *os.File {
 // ValueOutput returns a handle for writing value outputs.
 func (fm *Frame) ValueOutput() ValueOutput {
 	p := fm.ports[1]
-	if p.Chan == ClosedChan {
+	if p.Chan == ClosedChan || p.pipeInput {
 		// An input-only port (like the default stdin, or the result of a <
 		// redirection) was duplicated onto port 1. Sending on its closed
 		// channel would panic; report an error instead.
